@@ -419,10 +419,10 @@ fn judge_roundtrip(c: &Case, packets: &[Vec<u8>], stats: &mut BTreeMap<&'static 
     // ---- size
     for (i, p) in packets.iter().enumerate() {
         if p.len() > 9000 {
-            // the number of records in the oversized packet is part of the signature: the packet-splitting
-            // rule (29 records per packet) is what decides the size
-            let n = parse_dns(p).map(|k| k.additionals.len().to_string()).unwrap_or_else(|_| "unparsable".into());
-            return Some((format!("packet-too-large:{n}-txt-records"), format!("packet {i} of {} has {} bytes (> 9000) with {n} TXT records", packets.len(), p.len())));
+            // whether the packet respects the documented 29-records-per-packet split is part of the signature
+            let n = parse_dns(p).map(|k| k.additionals.len()).unwrap_or(usize::MAX);
+            let class = if n <= 29 { "at-most-29-txt-records" } else { "more-than-29-txt-records" };
+            return Some((format!("packet-too-large:{class}"), format!("packet {i} of {} has {} bytes (> 9000) with {n} TXT records", packets.len(), p.len())));
         }
         if p.len() > 8000 {
             *stats.entry("packets_over_8000_bytes").or_default() += 1;
